@@ -434,6 +434,10 @@ class Library:
             raise OutOfReach(f"np.array of {type(v).__name__}")
 
         def np_roll(a, shift, axis=None):
+            if isinstance(shift, (tuple, list)) and isinstance(axis, (tuple, list)) and len(shift) == len(axis):
+                for sh_, ax_ in zip(shift, axis):
+                    a = np_roll(a, sh_, ax_)
+                return a
             if not isinstance(a, ix.IArr) or axis is None:
                 raise OutOfReach("np.roll form")
             n = a.vshape[axis]
@@ -535,9 +539,18 @@ class Library:
 
         def np_any(a):
             if isinstance(a, ix.IArr):
-                ents = a.concrete_entries()
-                return sor(*[v for _, v in ents]) if ents else False
+                return a.any_true()
             return a
+
+        def np_prod(a):
+            if isinstance(a, ix.IArr):
+                return a.prod_all()
+            if isinstance(a, (list, tuple)):
+                tot = Fraction(1)
+                for x in a:
+                    tot = tot * x
+                return tot
+            raise OutOfReach("np.prod form")
 
         def np_allclose(a, b, rtol=Fraction(1, 100000), atol=Fraction(1, 10**8), **kw):
             """|a - b| <= atol + rtol |b| for all entries (concrete-shape real data only)."""
@@ -614,7 +627,7 @@ class Library:
                 return abs(a - b) <= atol + rtol * abs(b)
             raise OutOfReach("np.isclose on arrays")
 
-        return {"argmax": np_argmax, "isclose": np_isclose, "mean": np_mean, "clip": np_clip, "block": np_block, "array": np_array, "roll": np_roll, "zeros_like": np_zeros_like, "empty_like": np_zeros_like, "empty": np_empty,
+        return {"prod": np_prod, "argmax": np_argmax, "isclose": np_isclose, "mean": np_mean, "clip": np_clip, "block": np_block, "array": np_array, "roll": np_roll, "zeros_like": np_zeros_like, "empty_like": np_zeros_like, "empty": np_empty,
                 "concatenate": np_concatenate, "real": np_real, "imag": np_imag, "any": np_any, "allclose": np_allclose}
 
     # -- FFT (axiomatised): fft2 of a real array is an uninterpreted complex function of the frequency;
